@@ -46,7 +46,9 @@ def rule_body(prog: Program, rname: str, opts: dict):
         raise AnalysisError(f"{rname}: can_apply_to/apply_to vanished")
 
     def body(it: Interp):
+        it.retained_mode += 1
         rule = it.instantiate(cinfo, [], dict(opts))
+        it.retained_mode -= 1
         it.rule_obj = rule
         node = it.new_summary(ALL_KINDS, "arg")
         it.arg = node
@@ -584,6 +586,10 @@ def _audit_links(it: Interp, hv: HeapView, at: int) -> List[dict]:
             continue
         cell = it.cells[cid]
         ks = hv.kinds(cid)
+        if cell.retained:
+            problems.append({"what": "a node that outlives the call (default argument / module or rule state) is linked "
+                                     "into the result: every application shares the same node object",
+                             "cell": hv.shape(cid, "cur"), "allocated_at": cell.alloc_site})
         vals = {}
         for s in ("left", "right"):
             v = cell.cur.get(s, _MISSING)
@@ -655,7 +661,7 @@ def _audit_relevant(tb, ta) -> List[dict]:
     def atoms(t):
         if t[0] == "eq":
             return atoms(t[1]) | atoms(t[2])
-        return {s for s in A.symbols(t) if s[0] == "atom"}
+        return {s for s in A.symbols(t) if s[0] == "atom" and s[1] != "nan"}
     b, a = atoms(tb), atoms(ta)
     out = []
     if b - a:
